@@ -4,6 +4,7 @@
 package simio
 
 import (
+	"bufio"
 	"errors"
 	"io"
 
@@ -106,6 +107,10 @@ type SourcePlan struct {
 	// io.ByteReader (like *bytes.Reader or *bufio.Reader, the sources most
 	// callers use; the library takes a different path for them)
 	ByteReader bool `json:"byte_reader,omitempty"`
+	// Bufio > 0: the library gets a *bufio.Reader of that buffer size over the
+	// source (what gxz and most file-reading callers pass; it offers ReadByte,
+	// Peek, Discard and WriteTo)
+	Bufio int `json:"bufio,omitempty"`
 }
 
 // Source is a fragmenting, fault-injecting io.Reader over a byte image.
@@ -135,6 +140,9 @@ func NewSource(img []byte, p SourcePlan) *Source {
 // Reader returns the io.Reader handed to the library: the source behind a
 // wrapper that exposes only Read, or one that also implements io.ByteReader.
 func (s *Source) Reader() io.Reader {
+	if s.Plan.Bufio > 0 {
+		return bufio.NewReaderSize(sourceOnly{s}, s.Plan.Bufio)
+	}
 	if s.Plan.ByteReader {
 		return byteSource{s}
 	}
